@@ -3,7 +3,7 @@ import vlib
 CFG = dict(
     imports=["From Verif.Common Require Import Cas.", "From Verif.C19 Require Import Model.", "From Verif.C22 Require Import Model Spec."],
     checker="check_case",
-    n=dict(quick=56, thorough=3000),
+    n=dict(quick=56, thorough=672),
     shard=100,
     harness_dirs=["C19", "C22"],
     rule="case 0 is the scripted minimal witness of the same-host release/claim race, case 1 the scripted left-over affinity row: AutoAssign claims a block, ReleaseAffinity(mustBeEmpty=false) of the non-empty block crashes after clearing the block's Affinity field and before deleting the pendingDeletion row, the restarted host runs AutoAssign (getBlockFromAffinity on a block with nil Affinity), the addresses are released and another host claims the block; crashes are also injected preferentially just before an affinity row is deleted; each other case = one pool (1-4 blocks of 2-4 "
